@@ -669,9 +669,46 @@ struct Sup {
     rep: Report,
     profile: String,
     timeout_s: u64,
+    /// valid files with the digest the worker reported for them before it saw anything hostile
+    canaries: Vec<(&'static str, Vec<u8>, String)>,
+    calls_since_canary: u64,
 }
 
 impl Sup {
+    /// Hostile inputs must leave nothing behind in the process (intern tables, thread-locals, caches): every 64 calls
+    /// the same worker decodes three valid files again and must report the digests it reported at the start.
+    fn canary(&mut self, seed: u64, last: &J) {
+        let to = Duration::from_secs(self.timeout_s);
+        if self.canaries.is_empty() {
+            for (dec, kind) in [("bin", "bin-lz4"), ("xml", "xml"), ("attr", "attr")] {
+                if let Some(d) = valid_file(seed ^ 0xca9a, 7, kind, 8) {
+                    let r = self.w.call(&format!("D {} {}", dec, canon::hex(&d)), to);
+                    if r["o"] == "ok" {
+                        self.canaries.push((dec, d, r["digest"].as_str().unwrap_or("").to_owned()));
+                    }
+                }
+            }
+            return;
+        }
+        self.calls_since_canary += 1;
+        if self.calls_since_canary < 64 {
+            return;
+        }
+        self.calls_since_canary = 0;
+        for (dec, d, want) in self.canaries.clone() {
+            let r = self.w.call(&format!("D {} {}", dec, canon::hex(&d)), to);
+            self.rep.count("canary.checks");
+            if r["o"] != "ok" || r["digest"].as_str() != Some(want.as_str()) {
+                self.rep.violation(
+                    &format!("C13:state-left-by-hostile-input:{}", dec),
+                    &format!("after hostile inputs the same worker decodes a valid {} file differently: {} (digest at start {}); last hostile outcome {}", dec, r, want, last),
+                    json!({"cmd": "c13", "note": "canary: re-run the shard"}),
+                    J::Null,
+                );
+            }
+        }
+    }
+
     /// Judge one decode outcome. `must_err`: strict prefix of a valid file.
     fn judge_decode(&mut self, decoder: &str, what: &str, input: &[u8], resp: &J, must_err: bool, replay: J) {
         let o = resp["o"].as_str().unwrap_or("?");
@@ -773,7 +810,7 @@ pub fn main(a: &Args) {
         None => std::env::current_exe().unwrap(),
     };
     let profile = a.str("profile-name", "release");
-    let mut sup = Sup { w: Worker::spawn(&exe), rep: Report::new("C13"), profile, timeout_s: a.u64("timeout", 30) };
+    let mut sup = Sup { w: Worker::spawn(&exe), rep: Report::new("C13"), profile, timeout_s: a.u64("timeout", 30), canaries: vec![], calls_since_canary: 0 };
     let to = Duration::from_secs(a.u64("timeout", 30));
     const KINDS: &[&str] = &["bin-none", "bin-none", "bin-lz4", "bin-zstd", "xml", "xml", "attr"];
     match mode.as_str() {
@@ -863,8 +900,12 @@ pub fn main(a: &Args) {
                 sup.rep.nontrivial(crate::rng::fnv64(&data));
                 sup.rep.sample(json!({"index": i, "decoder": dec, "how": how, "bytes": data.len()}));
                 let replay = json!({"cmd": "c13", "mode": "replay", "decoder": dec, "input_hex": canon::hex(&data[..data.len().min(1 << 20)]), "how": how, "seed": seed, "index": i});
+                if sup.canaries.is_empty() {
+                    sup.canary(seed, &J::Null);
+                }
                 let resp = sup.w.call(&format!("D {} {}", dec, canon::hex(&data)), to);
                 sup.judge_decode(dec, &how, &data, &resp, false, replay.clone());
+                sup.canary(seed, &resp);
                 // read partition: the same bytes through hostile readers must give the same result
                 if i % 4 == 0 && data.len() <= 4096 && matches!(resp["o"].as_str(), Some("ok") | Some("err")) {
                     for m in 0..5u8 {
